@@ -45,7 +45,7 @@ AREA = {'aes': ['C02', 'C03', 'C09', 'C10', 'C14'], 'cli': ['C12', 'C15', 'C16',
 AREA.update({'cli2': AREA['cli'], 'driver2': AREA['driver'] + ['C01', 'C14'], 'group2': AREA['pipeline'], 'b642': ['C16', 'C17'],
              'hash2': AREA['hash'] + ['C18'], 'aes2': AREA['aes'] + ['C11'], 'hdr2': ['C02', 'C05', 'C06', 'C08', 'C11', 'C12', 'C13', 'C18']})
 # refactorings the present analysis cannot follow (the check answers ANALYSIS-BROKEN, exit 2, not a violation): kept out of the replay
-SKIP = {'equiv/group2-r2/patch.diff'}
+SKIP = set()
 for d in sorted(glob.glob('equiv/*/patch.diff')):
     if d in SKIP:
         continue
